@@ -242,3 +242,11 @@ func VerifDigest(a *Agent) VerifAgentDigest {
 	return VerifAgentDigest{NameID: a.NameID, Active: a.Active, Queue: len(a.JobQueue), Tasks: len(a.Tasks), Downloads: len(a.Downloads),
 		Links: len(a.Pivots.Links), Parent: a.Pivots.Parent, PortFwds: len(a.PortFwds), SocksCli: len(a.SocksCli), SocksSvr: len(a.SocksSvr)}
 }
+
+// (*Agent).ToMap goes through github.com/fatih/structs (reflection), which gosx does not
+// encode; its result only feeds JSON for operators / the third-party service.
+//
+//verif:stub (*Havoc/pkg/agent.Agent).ToMap
+func verifStubToMap(a *Agent) map[string]interface{} {
+	return map[string]interface{}{"NameID": a.NameID, "Active": a.Active}
+}
